@@ -666,7 +666,15 @@ func GenE3(prop string, seed uint64) *Program {
 		// never opened it
 		set := g.op("Set")
 		set.Coll, set.ExpKind = 1, 0
-		prog.Ops = append(prog.Ops, Op{Kind: "CreateColl"}, set, Op{Kind: "Reopen"})
+		prog.Ops = append(prog.Ops, Op{Kind: "CreateColl"}, set)
+		if r.Chance(50) { // the collection also has a design document, which must go with it - or stay with it
+			dd := g.op("PutDDoc")
+			dd.Coll = 1
+			prog.Ops = append(prog.Ops, dd)
+		}
+		if r.Chance(70) {
+			prog.Ops = append(prog.Ops, Op{Kind: "Reopen"})
+		}
 		if r.Chance(30) {
 			prog.Ops = append(prog.Ops, g.op("Set"))
 			prog.Ops[len(prog.Ops)-1].Coll = 0
